@@ -4,7 +4,8 @@ Monitor: the real Cluster.connect() (ControlConnection._try_connect loop, Cluste
 ProtocolVersion.get_lower_supported, Connection.factory) runs in the deterministic world against
 scripted wire-level nodes that support an arbitrary subset of {1..6, DSE_V1, DSE_V2} and reject
 every other version the way Cassandra does (ERROR 0x000A "unsupported protocol version" framed
-in the server's own highest version; the beta-flag error for v6 without USE_BETA).  The sequence
+in the server's own highest version; the beta-flag error for a version of the server's own beta set - {6}
+for Cassandra 4.x, {5} for Cassandra 3.10/3.11 - used without USE_BETA).  The sequence
 of versions of the connection attempts is read off the frames arriving at the node and compared
 with an independent reference walk.
 """
@@ -14,8 +15,9 @@ PROPERTY = "C41"
 LEVEL = "exploration"
 ENGINE = "sim"
 TECHNIQUE = "runtime monitor in a deterministic world: versions of the frames seen by scripted nodes vs an independent reference walk, exhaustive over server version sets"
-LEVEL_TEXT = ("Every (server version set in 2^{1,2,3,4,5,6,0x41,0x42}) x (start version) x (explicit | implicit configuration) = 4096 "
-              "single-node histories is run (the same space again with allow_beta_protocol_version on the thorough tier / as time permits), "
+LEVEL_TEXT = ("Every (server version set in 2^{1,2,3,4,5,6,0x41,0x42}) x (server-side beta set in 2^{5,6}) x (start version) x (explicit | implicit "
+              "configuration) = 16384 single-node histories is run on the thorough tier (and the same space again with allow_beta_protocol_version "
+              "as the budget permits); the quick tier runs a seeded sample of that space, "
               "plus seeded two-node histories with independent version sets: attempt versions strictly decrease, skip beta versions, equal "
               "the reference walk, an explicit version is never changed, the number of attempts is bounded by the number of versions, and "
               "the outcome (session at the reference version / NoHostAvailable) matches. Exhaustive over the stated finite space.")
@@ -36,14 +38,17 @@ def next_lower(v):
     return max(c) if c else None
 
 
-def reference(start, explicit, allow_beta, hosts):
-    """hosts: list of version sets in the order the driver tries them. Returns (attempts [(host index, version)], final version | None)."""
+def reference(start, explicit, allow_beta, hosts, betas):
+    """hosts / betas: per host, in the order the driver tries them, the versions the server speaks and the subset of them it only
+    speaks with the USE_BETA flag.  Returns (attempts [(host index, version)], final version | None).
+    A version is refused either as unsupported or - supported but beta and the client does not set USE_BETA - with the beta error;
+    an implicitly configured client answers both by trying the next lower version that is not beta *for the client*."""
     seq = []
     v = start
     for hi, S in enumerate(hosts):
         while True:
             seq.append((hi, v))
-            if v in S and (v not in BETA or allow_beta):
+            if v in S and (v not in betas[hi] or allow_beta):
                 return seq, v
             if explicit:
                 break
@@ -62,7 +67,7 @@ def run_history(case, seed):
     import cassandra.cluster as CC
     from cassandra.connection import ConnectionException
     from cassandra.protocol import ErrorMessage
-    sets, start, explicit, allow_beta, p_preempt = case
+    sets, start, explicit, allow_beta, p_preempt, betas = case
     random.seed(seed)
     ch = W.RandomChooser(random.Random(seed), p_time=0.0, p_preempt=p_preempt)
     addrs = ['127.0.0.%d' % (i + 1) for i in range(len(sets))]
@@ -79,11 +84,12 @@ def run_history(case, seed):
                     n.up = False           # stop a runaway negotiation: further connection attempts are refused
         if req['version'] not in node.supported_versions:
             counters['rejections'] += 1
-        elif req['version'] in BETA and not req['beta']:
+        elif req['version'] in node.beta_versions and not req['beta']:
             counters['beta_errors'] += 1
-    for a, S in zip(addrs, sets):
+    for a, S, Bs in zip(addrs, sets, betas):
         n = env.net.nodes[a]
         n.supported_versions = set(S)
+        n.beta_versions = set(Bs)
         n.observer = observer
     viol = []
     with env:
@@ -115,10 +121,10 @@ def run_history(case, seed):
                 order.append(a)
         seq_obs = [(order.index(str(c.endpoint.address)), first_version.get(c.sim_id)) for c in control if c.sim_id in first_version]
         hosts = [set(sets[addrs.index(a)]) for a in order]
-        seq_ref, final_ref = reference(start, explicit, allow_beta, hosts)
+        seq_ref, final_ref = reference(start, explicit, allow_beta, hosts, [set(betas[addrs.index(a)]) for a in order])
         # if the reference connects at host k the hosts after k are never tried: the driver's order beyond what was observed is irrelevant
         vs = [v for _, v in seq_obs]
-        info = {'sets': [sorted(s) for s in sets], 'start': start, 'explicit': explicit, 'allow_beta': allow_beta, 'seed': seed,
+        info = {'sets': [sorted(s) for s in sets], 'server_beta': [sorted(b) for b in betas], 'start': start, 'explicit': explicit, 'allow_beta': allow_beta, 'seed': seed,
                 'observed': seq_obs, 'reference': seq_ref, 'outcome': (outcome[0], repr(outcome[1])[:200]), 'host_order': order}
         if len(attempts) > ATTEMPT_CAP * len(sets) or len(vs) > len(ALL) * len(sets):
             viol.append(('negotiation-does-not-terminate', '%d connection attempts for %d known versions (versions %r ...)' % (len(attempts), len(ALL), vs[:12])))
@@ -187,7 +193,7 @@ def run(ctx):
             ProtocolVersion.SUPPORTED_VERSIONS, ProtocolVersion.BETA_VERSIONS))
     if CC.Cluster.protocol_version != ALL[0]:
         raise Inconclusive("default Cluster.protocol_version is %r, expected %r" % (CC.Cluster.protocol_version, ALL[0]))
-    ctx.rule = ("a case = (version set per node, start version, explicit|implicit, allow_beta); single-node cases are enumerated completely, "
+    ctx.rule = ("a case = (version set and beta set per node, start version, explicit|implicit, allow_beta); single-node cases are enumerated completely (thorough) / sampled by a seeded shuffle (quick), "
                 "two-node cases are seeded samples; distinct by that tuple; every case is non-trivial (at least one connection attempt is observed)")
     ctx.assume("a server rejects a version with ERROR 0x000A whose text contains 'unsupported protocol version', framed in the highest version it supports "
                "(Cassandra's dialect); v6 without USE_BETA is answered with Cassandra's 'USE_BETA flag is unset' error")
@@ -196,20 +202,24 @@ def run(ctx):
     nw = max(1, ctx.nworkers)
     w = ctx.worker or 0
 
+    SERVER_BETA = (frozenset(), frozenset([5]), frozenset([6]), frozenset([5, 6]))     # {6}: Cassandra 4.x, {5}: Cassandra 3.10/3.11
+
     def single(i, beta):
         S = frozenset(v for k, v in enumerate(ALL) if (i >> k) & 1)
-        return ((S,), ALL[(i >> 8) & 7], bool((i >> 11) & 1), beta, 0.0)
-    primary = [single(i, False) for i in range(4096)]
-    secondary = [single(i, True) for i in range(4096)]
+        return ((S,), ALL[(i >> 8) & 7], bool((i >> 11) & 1), beta, 0.0, (SERVER_BETA[(i >> 12) & 3],))
+    primary = [single(i, False) for i in range(16384)]
+    secondary = [single(i, True) for i in range(16384)]
     order_rng = random.Random(ctx.seed)
     order_rng.shuffle(primary)
     order_rng.shuffle(secondary)
-    budget = 36 if ctx.quick else 380
+    # the amount of work is bounded by the CPU time of this process (deterministic under load), with a generous wall-clock cap behind it
     import time
-    t_run0 = time.time()          # the budget counts from here (imports done); at most 25 s of start-up slack on a loaded machine
+    cpu0, wall0 = time.process_time(), time.time()
+    budget = 14.0 if ctx.quick else 330.0
+    wall_cap = 150.0 if ctx.quick else 840.0
 
-    def left(b):
-        return min(b - (time.time() - t_run0), ctx.time_left(b + 25))
+    def left(share):
+        return min(budget * share - (time.process_time() - cpu0), wall_cap * share - (time.time() - wall0))
     done_primary = done_secondary = True
 
     def one(case, seed):
@@ -223,7 +233,7 @@ def run(ctx):
             return True
         except Exception as e:        # noqa
             raise Inconclusive("history %r seed %d failed in the harness: %s: %s" % (case, seed, type(e).__name__, e))
-        ctx.case(repr((sorted(sorted(s) for s in case[0]) if len(case[0]) == 1 else [sorted(s) for s in case[0]], case[1], case[2], case[3])))
+        ctx.case(repr(([sorted(s) for s in case[0]], [sorted(b) for b in case[5]], case[1], case[2], case[3])))
         ctx.count("histories")
         ctx.count("connection_attempts_observed", info['attempts'])
         ctx.count("versions_rejected_by_node", info['rejections'])
@@ -243,47 +253,56 @@ def run(ctx):
             if mech in seen:
                 continue
             seen.add(mech)
-            ctx.violation(mech, "%s [sets %r start %d %s%s]" % (what, info['sets'], info['start'], 'explicit' if info['explicit'] else 'implicit',
-                                                                 ' allow_beta' if info['allow_beta'] else ''), info)
+            ctx.violation(mech, "%s [sets %r server-beta %r start %d %s%s]" % (what, info['sets'], info['server_beta'], info['start'],
+                                                                                'explicit' if info['explicit'] else 'implicit',
+                                                                                ' allow_beta' if info['allow_beta'] else ''), info)
         if not viol and len(ctx.samples) < 5 and len(info['observed']) >= 3 and random.Random(seed).random() < 0.05:
             ctx.sample(info)
         return True
 
     mine = primary[w::nw]
+    quick = ctx.quick
     for k, case in enumerate(mine):
-        if left(budget) < 0 and k >= 50:
+        if left(0.72 if quick else 1.0) < 0 and k >= 50:
             done_primary = False
-            ctx.note("primary space stopped by the time budget after %d of %d cases of this worker" % (k, len(mine)))
+            if not quick:
+                ctx.note("primary space stopped by the budget after %d of %d cases of this worker" % (k, len(mine)))
             break
         one(case, ctx.seed * 7919 + k)
+        if case[5][0] and 5 in case[5][0]:
+            ctx.count("histories_with_server_side_beta_v5")
     # two-node histories and the allow_beta copy of the space
     rng = ctx.rng
-    n2 = ctx.scale(40, 6000)
+    n2 = ctx.scale(60, 6000)
     for k in range(n2):
-        if left(budget + (3 if ctx.quick else 50)) < 0:
+        if left(0.86 if quick else 1.0) < 0:
             break
         sets = tuple(frozenset(v for v in ALL if rng.random() < rng.choice([0.15, 0.4, 0.7])) for _ in range(2))
-        case = (sets, rng.choice(ALL), rng.random() < 0.35, rng.random() < 0.3, rng.choice([0.0, 0.0, 0.1]))
+        case = (sets, rng.choice(ALL), rng.random() < 0.35, rng.random() < 0.3, rng.choice([0.0, 0.0, 0.1]),
+                tuple(rng.choice(SERVER_BETA) for _ in range(2)))
         one(case, ctx.seed * 104729 + w * 1000003 + k)
     mine2 = secondary[w::nw]
     for k, case in enumerate(mine2):
-        if left(budget + (6 if ctx.quick else 120)) < 0:
+        if left(1.0) < 0:
             done_secondary = False
             break
         one(case, ctx.seed * 7919 + 50000 + k)
-    if not ctx.quick and done_primary and done_secondary:
-        # the primary space once more under preemptive interleavings of main / reactor / executor threads (same cases, other schedules)
-        for k, case in enumerate(mine):
-            if left(budget + 150) < 0:
+    if not quick and done_primary and done_secondary:
+        # part of the primary space once more under preemptive interleavings of main / reactor / executor threads (same cases, other schedules)
+        for k, case in enumerate(mine[:400]):
+            if left(1.0) < 0:
                 break
-            one(case[:4] + (0.2,), ctx.seed * 7919 + 90000 + k)
+            one(case[:4] + (0.2,) + case[5:], ctx.seed * 7919 + 90000 + k)
             ctx.count("histories_rerun_with_preemption")
-    ctx.exhaustive = bool(done_primary and ctx.counters.get("histories_over_budget", 0) == 0)
+    if quick:
+        ctx.exhaustive = False          # quick samples the 16384-case space (seeded shuffle); the thorough tier enumerates it
+    else:
+        ctx.exhaustive = bool(done_primary and ctx.counters.get("histories_over_budget", 0) == 0)
     if done_primary and done_secondary:
         ctx.note("allow_beta copy of the space completed by this worker")
-    # quick floors leave room for a loaded machine (the primary space completes in ~30 s on 4 idle cores; `exhaustive` says whether it did)
-    ctx.floor_distinct = 500 if ctx.quick else 8100
-    k = 1 if ctx.quick else 8
+    # floors: what the CPU budget guarantees (quick ~25 ms CPU per history); thorough = the whole primary space
+    ctx.floor_distinct = 500 if quick else 16384
+    k = 1 if quick else 16
     ctx.floor_counters = {"histories": 500 * k, "downgrade_steps": 200 * k, "connects_succeeded": 150 * k, "connects_failed": 100 * k,
-                          "explicit_version_rejected_and_kept": 50 * k, "beta_flag_errors_sent": 10 * k,
-                          "histories_connected_with_v5_segment_framing": 10 * k}
+                          "explicit_version_rejected_and_kept": 50 * k, "beta_flag_errors_sent": 20 * k,
+                          "histories_connected_with_v5_segment_framing": 10 * k, "histories_with_server_side_beta_v5": 100 * k}
